@@ -429,7 +429,7 @@ STANDINS = {
 
 for _p in ('C01', 'C02', 'C04', 'C07', 'C08', 'C13', 'C15', 'C16'):
     STANDINS.setdefault(_p, []).append(
-        {'name': 'scenarios', 'bin': 'scenarios', 'extract': False, 'args': {'quick': [_p, '--quick'], 'thorough': [_p]},
+        {'name': 'scenarios', 'bin': 'scenarios', 'extract': False, 'confirm': True, 'args': {'quick': [_p, '--quick'], 'thorough': [_p]},
          'assumed_contract': 'none assumed: the transfer loops are under contract; scripted RFC 7440 peers (in-memory sockets) run against the real Worker with executable twins of the '
                              'specification predicates, so that a change that makes the annotations inapplicable still meets a concrete check',
          'bound': 'file lengths around block/window boundaries x windowsize 1..4 x repeat {1,3} x every single fault (lost / duplicated / stale / swapped datagram at each position); '
@@ -482,9 +482,9 @@ def run_standins(pid, tier='quick'):
         if p.returncode == 1 and x.get('confirm'):
             # a stand-in that uses real sockets and timers: a counterexample counts only if it is reproduced
             first = [l for l in out if l.startswith(('COUNTEREXAMPLE', 'WITNESS'))][:1]
-            p2 = subprocess.run(cmd, cwd=rdir, env=env, stdout=subprocess.PIPE, stderr=subprocess.STDOUT, text=True)
+            p2 = subprocess.run(cmd, cwd=rdir, env=dict(env, VERIF_NET_TIMEOUT_MS='3000'), stdout=subprocess.PIPE, stderr=subprocess.STDOUT, text=True)
             out2 = p2.stdout.strip().split('\n')
-            norm = lambda ls: [re.sub(r'/\S+', '<path>', l) for l in ls]
+            norm = lambda ls: [re.sub(r'/\S+|\d+', '#', l)[:40] for l in ls]   # same kind of counterexample (paths, sizes and counts may differ)
             if p2.returncode != 1 or norm([l for l in out2 if l.startswith(('COUNTEREXAMPLE', 'WITNESS'))][:1]) != norm(first):
                 res.append({'name': x['name'], 'label': 'BOUNDED (not a proof)', 'bound': x['bound'], 'exit': p2.returncode,
                             'error': 'a counterexample was printed once but not reproduced on a second run (timing): ignored: %s' % (first[0][:200] if first else '')})
@@ -752,6 +752,11 @@ def find_witness(pid, tier):
         p = subprocess.run(args, cwd=replay_dir(), env=dict(os.environ, CARGO_NET_OFFLINE='true'),
                            stdout=subprocess.PIPE, stderr=subprocess.DEVNULL, text=True)
         _witness_cache[key] = [l for l in p.stdout.split('\n') if l.startswith('WITNESS')]
+        if _witness_cache[key] and pid in LISTENER_PROPS and p.returncode == 1:
+            # real sockets: repeat with a generous time-out; only what shows up again counts
+            p = subprocess.run(args, cwd=replay_dir(), env=dict(os.environ, CARGO_NET_OFFLINE='true', VERIF_NET_TIMEOUT_MS='3000'),
+                               stdout=subprocess.PIPE, stderr=subprocess.DEVNULL, text=True)
+            _witness_cache[key] = [l for l in p.stdout.split('\n') if l.startswith('WITNESS')]
         if (p.returncode >= 128 or p.returncode < 0) and pid in LISTENER_PROPS:
             # the harness hosts the servers in its own process: an abort (failed allocation) or a panic of the listener thread
             # that takes the process down is a C05 witness; the last PROBE line names the datagram
@@ -1077,7 +1082,7 @@ def main():
                     prc = 2
             discharged = len(obl) - len(new) - len(known_hit) if prc != 2 else 0
             ev = {
-                'property_id': pid, 'tier': tier, 'seed': seed, 'level': 'proof',
+                'property_id': pid, 'tier': tier, 'seed': seed, 'level': ('other' if pid == 'C14' else 'proof'),
                 'coverage': {
                     'obligations': len(obl), 'discharged': max(discharged, 0),
                     'checker_cmd': 'python3 tools/check.py %s --tier %s   [= weave /repo/src + contracts into scratch; then: %s]' % (pid, tier, vr['cmd']),
